@@ -13,6 +13,7 @@ import (
 	"encoding/json"
 	"fmt"
 	"math"
+	"os"
 	"time"
 
 	"github.com/buildbarn/bb-remote-execution/pkg/filesystem/virtual"
@@ -971,6 +972,10 @@ func (area) Execute(raw json.RawMessage) (term string, info *hcommon.Info, err e
 	var h history
 	if err := json.Unmarshal(raw, &h); err != nil {
 		return "", nil, err
+	}
+	if f := os.Getenv("NFS40_LAST_HISTORY"); f != "" {
+		// debugging aid: keep the history being executed (a hang of the harness itself)
+		os.WriteFile(f, raw, 0o644)
 	}
 	info = hcommon.NewInfo()
 	x := newExec(info)
